@@ -94,13 +94,14 @@ def parse(r):
     m = re.search(r"Temporal properties were violated", out)
     if m:
         r.violation = "temporal"
+        r.error = None
     m = re.search(r"Action property (\S+) is violated", out)
     if m:
         r.violation = m.group(1)
     if re.search(r"Error: Postcondition .* is false", out):
         r.post_ok = False
         r.violation = r.violation or "postcondition"
-    m = re.search(r"Error: (?!The behavior up to|Invariant|Deadlock|Temporal|Action property|Postcondition)(.*)", out)
+    m = re.search(r"Error: (?!The behavior up to|Invariant|Deadlock|Temporal|Action property|Postcondition|The following behavior constitutes)(.*)", out)
     if m and not r.violation:
         r.error = m.group(1).strip()[:500]
     if "Parsing or semantic analysis failed" in out or "Fatal error" in out:
